@@ -7,6 +7,7 @@ from collections.abc import Iterable, Mapping
 from enum import Enum
 from typing import Optional, Union
 
+from formulaic.utils.code import sanitize_variable_names
 from formulaic.utils.layered_mapping import LayeredMapping
 
 
@@ -62,7 +63,13 @@ def get_expression_variables(
             renaming performed during sanitization).
     """
     if isinstance(expr, str):
-        expr = ast.parse(expr, mode="eval")
+        # Names quoted with backticks are not valid Python: parse the
+        # expression with placeholders and report the names they stand for.
+        aliases = dict(aliases or {})
+        expr = ast.parse(
+            sanitize_variable_names(expr, {}, aliases, template="_formulaic_{}"),
+            mode="eval",
+        )
     variables = _get_ast_node_variables(expr, aliases or {})
 
     if isinstance(context, LayeredMapping):
